@@ -489,6 +489,9 @@ def run_program(out, tree, ops, queries=(), top=None, stats=None):
                     expect[nuc] = newmass * C / _weight(nuc)
                 out.nontrivial = out.nontrivial or (not comp and holders(nuc) >= 2)
                 getattr(obj, kind)(nuc, m)
+                if reject and abs(m) < 1e-200:
+                    reject = False  # (a sub-normal mass converts to density 0.0: nothing to refuse)
+                    expect.clear()
                 if reject:
                     out.fail("edit/%s-absent-nuclide-accepted" % kind, "%s: %s held by no child, mass %r accepted" % (where, nuc, m))
             elif kind == "setMasses":
@@ -643,7 +646,7 @@ def _op_strategy(nlevels):
     tgt = st.integers(0, 60)
     known = st.just(False) if EXCLUDE_KNOWN.get(SIG_COMP_MASS_SYM) else st.booleans()
     item = st.tuples(st.integers(0, 200), st.integers(0, 8).map(lambda x: x == 0), _unit, st.integers(0, 9).map(lambda x: x == 0)).map(list)
-    mitem = st.tuples(st.integers(0, 200), st.integers(0, 8).map(lambda x: x == 0), st.floats(0.01, 3.0)).map(list)
+    mitem = st.tuples(st.integers(0, 200), st.integers(0, 8).map(lambda x: x == 0), st.floats(0.01, 3.0).map(lambda x: round(x, 6))).map(list)
     fitem = st.tuples(st.integers(0, 200), st.floats(0.01, 0.3)).map(list)
     return st.one_of(
         st.fixed_dictionaries({"op": st.just("setND"), "level": lvl, "t": tgt, "nuc": _nucrec(), "v": _unit,
@@ -654,7 +657,7 @@ def _op_strategy(nlevels):
                                "f": st.one_of(st.floats(0.05, 4.0), st.sampled_from([0.5, 2.0, 1.0])),
                                "known": st.just(False) if EXCLUDE_KNOWN.get(SIG_SCALE_RAISES) else st.booleans()}),
         st.fixed_dictionaries({"op": st.sampled_from(["addMass", "removeMass", "setMass"]), "level": lvl, "t": tgt,
-                               "nuc": _nucrec(), "frac": st.floats(0.0, 2.5), "known": known}),
+                               "nuc": _nucrec(), "frac": st.floats(0.0, 2.5).map(lambda x: round(x, 6)), "known": known}),
         st.fixed_dictionaries({"op": st.just("setMasses"), "level": lvl, "t": tgt, "items": st.lists(mitem, min_size=1, max_size=3),
                                "known": known}),
         st.fixed_dictionaries({"op": st.sampled_from(["setMassFracs", "setMassFrac"]), "level": lvl, "t": tgt,
@@ -677,8 +680,10 @@ SHAPES_2D = ["Circle", "Hexagon", "Rectangle", "SolidRectangle", "Square", "Tria
 SHAPES_3D = ["Sphere", "Cube", "UnshapedVolumetricComponent"]
 MATS_ANY_T = ["UZr", "HT9", "Sodium", "UO2", "B4C", "MOX", "Zr", "Graphite", "Lead", "LeadBismuth", "ThO2", "Uranium",
               "Inconel600", "Inconel625", "Inconel800", "InconelX750", "HastelloyN", "Be9", "Cu", "Magnesium", "MgO",
-              "NaCl", "Sc2O3", "TZM", "Y2O3", "ZnO", "Air", "Lithium", "Cs", "Void"]
-MATS_COLD = ["Alloy200", "CaH2", "Californium", "Concrete", "Hafnium", "Inconel", "InconelPE16", "Molybdenum", "NZ",
+              "NaCl", "Sc2O3", "Y2O3", "ZnO", "Air", "Lithium", "Cs", "Void"]
+# (cold only: no expansion data above room temperature; TZM: tabulated expansion is flat just above 20 C, where armi's
+# documented "no linear expansion -> RuntimeError" rule then refuses a 0.4 K difference)
+MATS_COLD = ["TZM", "Alloy200", "CaH2", "Californium", "Concrete", "Hafnium", "Inconel", "InconelPE16", "Molybdenum", "NZ",
              "SiC", "Tantalum", "ThU", "Thorium", "UThZr"]
 MULTS = [1, 1, 2, 3, 7, 19, 61, 169, 271]
 
